@@ -42,7 +42,7 @@ func runC06(c *Ctx) {
 		"C06.m insert/delete character: every cell from the cursor to the right margin of the cursor row receives the cell n columns to its left/right when that cell lies in the interval and is blanked otherwise; cells outside the interval and other rows are untouched (n within and beyond the cells that remain)",
 		"C06.g print blanks, in the pen's style, exactly the columns col+1 .. min(col+w-1, right margin) a wide glyph covers, on the glyph's row",
 	}
-	c.NotDec = []string{"grid contents (graphemes, widths, styles) after each operation; SGR-to-pen mapping (C18); behaviour in the deferred-wrap column other than printing, CR and absolute positioning (exempt by the statement)"}
+	c.NotDec = []string{"grid contents (graphemes, widths, styles) after each operation other than the contracts above; malformed SGR parameter lists; behaviour in the deferred-wrap column other than printing, CR and absolute positioning (exempt by the statement)"}
 	c.Assume = append(c.Assume, "terminal sizes are at least 1x1; contract preconditions state larger minimum sizes where needed", "sequence parameters are non-negative (C05.d)")
 	defer debug.SetGCPercent(debug.SetGCPercent(1000)) // the engine allocates many small maps next to a large, static program
 	c05Normalise(c)
